@@ -751,6 +751,14 @@ LITERAL_SCRIPTS = [
       (['setup', '--wipe', '@B', '@S'], {'s': 'from-cmd', 'i': '42', 'warning_level': '0', 'b': 'true'}),
       (['setup', '--reconfigure', '@B', '@S', '-Di=7'], {'s': 'from-cmd', 'i': '7', 'warning_level': '0', 'b': 'true'}),
       (['setup', '--wipe', '@B', '@S'], {'s': 'from-cmd', 'i': '7', 'warning_level': '0', 'b': 'true'})]),
+    # a backend option that the machine file sets: the user's later value is the last word, also across reconfigures
+    ('machine-file-backend-option-then-user-value',
+     [(['setup', '@B', '@S', '--native-file', '@S/nf.ini'], {'backend_max_links': '8', 's': 'from-nf'}),
+      (['configure', '@B', '-Dbackend_max_links=2'], {'backend_max_links': '2'}),
+      (['setup', '--reconfigure', '@B', '@S'], {'backend_max_links': '2', 's': 'from-nf'}),
+      (['setup', '--reconfigure', '@B', '@S', '-Dbackend_max_links=3'], {'backend_max_links': '3'}),
+      (['setup', '--reconfigure', '@B', '@S'], {'backend_max_links': '3'}),
+      (['setup', '--wipe', '@B', '@S'], {'backend_max_links': '3', 's': 'from-nf'})]),
     ('configure-then-wipe-keeps-empty-values',
      [(['setup', '@B', '@S', '-Ds=first', '-Dtags=b,c'], {'s': 'first', 'tags': 'b,c'}),
       (['configure', '@B', '-Ds=', '-Dtags='], {'s': '', 'tags': ''}),
@@ -766,7 +774,7 @@ def run_literal(job: T.Tuple[int, str]) -> dict:
     src, b = os.path.join(base, 'src'), os.path.join(base, 'b')
     top, sub = initial_files()
     runner.write_tree(src, render_project(L.Model(top, sub)))
-    runner.write_tree(src, {'nf.ini': "[project options]\ns = 'from-nf'\ni = 42\n\n[built-in options]\nwarning_level = '3'\n"})
+    runner.write_tree(src, {'nf.ini': "[project options]\ns = 'from-nf'\ni = 42\n\n[built-in options]\nwarning_level = '3'\nbackend_max_links = 8\n"})
     res: T.Dict[str, T.Any] = {'script': name, 'problems': [], 'checked': 0}
     for i, (argv, expect) in enumerate(steps):
         rr = runner.meson([a.replace('@B', b).replace('@S', src) for a in argv], cwd=src)
